@@ -1,8 +1,8 @@
 SPECIFICATION FairSpecR
 CONSTANTS
   Workers = {1, 2}
-  Jobs = {1, 2, 3}
-  MaxFail = 2
+  Jobs = {1, 2}
+  MaxFail = 1
   AllowClose = TRUE
 PROPERTIES StrongLiveness
 CHECK_DEADLOCK FALSE
